@@ -76,6 +76,18 @@ CLAIMED = {
         "of the code under test.",
         "Hypothesis soup + grammar round-trip + exhaustive small forests + atheris; round-trip / invariant / brute-force reference oracles",
     ),
+    "C09": (
+        "Every explicit-target kind (9) x target container x link spelling (4) x link container (5) x order (exhaustive), "
+        "and Hypothesis documents with drawn sets of explicit targets, headings with duplicate / suffix-colliding titles "
+        "under anchor depth 0-4 and '#' links to existing, slug, clashing, too-deep, missing, duplicate and case-variant "
+        "names, through docutils and the in-process Sphinx reader; the generator knows the node each link must hit "
+        "(marker words, heading index, independent slug model); oracle: refid in that node's ids, explicit beats slug, "
+        "empty text = target title or '#name', one xref_missing warning per missing link at its line, link count "
+        "preserved; bounded search.",
+        "Links sit in one-line paragraphs; empty-text links to missing targets (pinned by a fixture), case-variant and "
+        "duplicate names get weak checks; Sphinx math labels are outside the statement's target kinds.",
+        "exhaustive kind x placement enumeration + Hypothesis; reference-model oracle with ground truth by construction",
+    ),
     "C11": (
         "Every arrangement of <=2/3 footnote definitions over 4 labels x every sequence of <=3 references (exhaustive), "
         "Hypothesis documents (11 labels incl. numeric, upper-case and superscript-digit ones, undefined labels, "
